@@ -8,6 +8,7 @@ import (
 	"github.com/jdillenkofer/pithos/internal/ptrutils"
 	"github.com/jdillenkofer/pithos/internal/storage"
 	"github.com/jdillenkofer/pithos/internal/storage/database/repository/object"
+	"github.com/jdillenkofer/pithos/internal/verifhook"
 	"github.com/oklog/ulid/v2"
 )
 
@@ -178,6 +179,7 @@ func (or *sqliteRepository) InsertObjectIfAbsent(ctx context.Context, tx *sql.Tx
 }
 
 func (or *sqliteRepository) UpdateObjectByIdAndOptimisticLockVersion(ctx context.Context, tx *sql.Tx, object *object.Entity, optimisticLockVersion int64) (*bool, error) {
+	verifhook.At("objrepo.cas", tx, object.Id.String())
 	mapUploadIdToString := func(uploadId storage.UploadId) string {
 		return uploadId.String()
 	}
@@ -346,6 +348,7 @@ func (or *sqliteRepository) DeleteObjectById(ctx context.Context, tx *sql.Tx, ob
 }
 
 func (or *sqliteRepository) DeleteObjectByIdAndOptimisticLockVersion(ctx context.Context, tx *sql.Tx, objectId ulid.ULID, optimisticLockVersion int64) (*bool, error) {
+	verifhook.At("objrepo.cas", tx, objectId.String())
 	res, err := tx.ExecContext(ctx, deleteObjectByIdAndOptimisticLockVersionStmt, objectId.String(), optimisticLockVersion)
 	if err != nil {
 		return nil, err
